@@ -512,7 +512,7 @@ pub fn run(ctx: &Ctx, report: &mut Report) {
             non-terminal."
             .into();
         report.assumptions.push("vmodel::zone::MZone::add as the reference for acceptance and de-duplication".into());
-        run_prop(ctx, report, PropSpec { name: "zone-store", cases: ctx.tier.pick(30_000, 1_000_000), max_shrink_iters: 8192 }, || zone_case(60, false), oracle_store);
+        run_prop(ctx, report, PropSpec { name: "zone-store", cases: ctx.tier.pick(120_000, 2_000_000), max_shrink_iters: 8192 }, || zone_case(60, false), oracle_store);
     }
 }
 
